@@ -51,6 +51,11 @@ States == [vars : [Names -> Vers \cup {Undef}], macs : [Names -> Vers \cup {Unde
 
 Prefix(forms, k) == SubSeq(forms, 1, k - 1)
 
+(* all texts of at most n forms *)
+RECURSIVE Texts(_)
+Texts(n) == IF n = 0 THEN {<<>>}
+            ELSE LET S == Texts(n - 1) IN S \cup {Append(t, f) : t \in {x \in S : Len(x) = n - 1}, f \in Forms}
+
 --------------------------------------------------------------------------
 (* 1. reference semantics *)
 Effect(st, f) ==
